@@ -508,18 +508,19 @@ def drain (w : World) (o : Opts) (st : St) : St :=
 
 def quiescent (st : St) : Bool := st.pending.isEmpty && st.dyn.isEmpty && st.deferred.isEmpty
 
+/-- one iteration of the `resolve_pending` loop body: consume the head of the queue (if any),
+then run the drain phases -/
+def iter (w : World) (o : Opts) (st : St) : St :=
+  -- with `in_dynamic_branch` already set, `resolve_dynamic_branches` does nothing and the loop
+  -- condition can only be left through an empty `dynamic_branches`
+  drain w o (match st.pending with
+    | r :: rest => stepPending w o r { st with pending := rest }
+    | [] => st)
+
 /-- `resolve_pending`; `none` = out of fuel (the build did not finish within `fuel` iterations) -/
 def runLoop (w : World) (o : Opts) : Nat → St → Option St
   | 0, _ => none
-  | fuel + 1, st =>
-    if quiescent st then some st
-    else
-      let st := match st.pending with
-        | r :: rest => stepPending w o r { st with pending := rest }
-        | [] => st
-      -- with `in_dynamic_branch` already set, `resolve_dynamic_branches` does nothing and the loop
-      -- condition can only be left through an empty `dynamic_branches`
-      runLoop w o fuel (drain w o st)
+  | fuel + 1, st => if quiescent st then some st else runLoop w o fuel (iter w o st)
 
 /-- `Builder::build` on a fresh graph: roots, configured imports, then the loop -/
 def build (w : World) (o : Opts) (roots : List Spec) (imports : List (Spec × List Dep)) (fuel : Nat) :
